@@ -1,1 +1,32 @@
 // Correspondence suites for property C16. Each suite is a #[test] fn named verif_c16_<suite>.
+// (c16_batcher / c16_validators / c16_race live in hooks/context.rs: they need items private to protocol::context.)
+//
+// b21: registry behind the guarded hook in `Batch::validate` (dzkp_validator.rs -> hooks/dzkp_validator.rs
+// `c16_note_validate`): every time a DZKP batch is handed to the proof step, its validation context's gate and the
+// batch index are noted — only for gates of worlds the race suites started themselves (step names containing
+// `c16race` / `c03race`), so the many other suites running in the same process leave no trace here.
+use std::sync::Mutex;
+
+static VALIDATIONS: Mutex<Vec<(String, usize)>> = Mutex::new(Vec::new());
+
+pub fn note_validate(gate: &str, batch_index: usize) {
+    if gate.contains("c16race") || gate.contains("c03race") {
+        VALIDATIONS.lock().unwrap_or_else(|e| e.into_inner()).push((gate.to_string(), batch_index));
+    }
+}
+
+/// removes and returns (sorted) the batch indices noted for gates containing `marker`
+pub fn take_validations(marker: &str) -> Vec<usize> {
+    let mut g = VALIDATIONS.lock().unwrap_or_else(|e| e.into_inner());
+    let mut out = vec![];
+    g.retain(|(gate, idx)| {
+        if gate.contains(marker) {
+            out.push(*idx);
+            false
+        } else {
+            true
+        }
+    });
+    out.sort_unstable();
+    out
+}
